@@ -49,13 +49,16 @@ type c13Op struct {
 	Ws    []c13WidJ `json:"ws"`
 	Refs  []int     `json:"refs"` // legacy input form of Xrs: one live XR per kind plus one referencing all of them
 	Xrs   []c13XR   `json:"xrs"`
+	Oxrs  []c13XR   `json:"oxrs"` // gc: the XRs of OTHER composite kinds (what a List of any other group/version/kind returns)
 	G     int       `json:"g"`
 	Phase int       `json:"phase"`
+	Asked []c13WidJ `json:"asked"` // gc, recorded by the run: the watches the collector asked StopWatches to stop, in its order (GetWatches' map order)
 }
 
 type c13Event struct {
 	T  int      `json:"t"`
 	F  bool     `json:"f"`
+	Fc int      `json:"fc"` // class of the injected error (index into c13ErrClasses)
 	St []string `json:"st"`
 }
 
@@ -97,12 +100,21 @@ func c13Norm(s *c13Scn) {
 			s.Threads[i].Xrs = append(s.Threads[i].Xrs, all)
 		}
 		s.Threads[i].Refs = []int{}
+		s.Threads[i].Asked = []c13WidJ{}
 		if s.Threads[i].Xrs == nil {
 			s.Threads[i].Xrs = []c13XR{}
+		}
+		if s.Threads[i].Oxrs == nil {
+			s.Threads[i].Oxrs = []c13XR{}
 		}
 		for k := range s.Threads[i].Xrs {
 			if s.Threads[i].Xrs[k].Refs == nil {
 				s.Threads[i].Xrs[k].Refs = []c13Ref{}
+			}
+		}
+		for k := range s.Threads[i].Oxrs {
+			if s.Threads[i].Oxrs[k].Refs == nil {
+				s.Threads[i].Oxrs[k].Refs = []c13Ref{}
 			}
 		}
 	}
@@ -124,12 +136,15 @@ func c13Norm(s *c13Scn) {
 func c13Run1(s c13Scn) (c13Scn, c13Obs, []Mon, []int) {
 	c13Norm(&s)
 	r := c13NewRun(s.Threads)
-	dead := r.run(s.Script, 400)
+	dead := r.run(s.Script, 200+40*len(s.Threads))
 	obs := r.observe(s.Names, dead)
 	if !dead {
 		r.cleanup(s.Names)
 	}
 	s.Events = r.events
+	for i, t := range r.th {
+		s.Threads[i].Asked = append([]c13WidJ{}, t.asked...)
+	}
 	s.Final = &obs
 	return s, obs, r.mons, r.branch
 }
@@ -153,9 +168,13 @@ func c13Cls(s c13Scn, obs c13Obs) string {
 		par += short[o]
 	}
 	faults, blocked := 0, 0
+	fcls := ""
 	for _, e := range s.Events {
 		if e.F {
 			faults++
+			if fcls == "" {
+				fcls = ":" + c13ErrClasses[e.Fc%len(c13ErrClasses)]
+			}
 		}
 		for _, st := range e.St {
 			if st == "b" {
@@ -166,10 +185,21 @@ func c13Cls(s c13Scn, obs c13Obs) string {
 	if faults > 1 {
 		faults = 1
 	}
-	if len(best) <= 1 {
-		return fmt.Sprintf("seq/f%d", faults)
+	// several collections by one controller's (long-lived) collector; kinds that differ from
+	// another one only in version, group, case or by a suffix
+	gcs, tag := map[int]int{}, ""
+	for _, t := range s.Threads {
+		if t.Op == "gc" {
+			gcs[t.N]++
+			if gcs[t.N] == 2 {
+				tag = "/gc2"
+			}
+		}
 	}
-	return fmt.Sprintf("par=%s/f%d/b%d", par, faults, blocked)
+	if len(best) <= 1 {
+		return fmt.Sprintf("seq/f%d%s%s", faults, fcls, tag)
+	}
+	return fmt.Sprintf("par=%s/f%d%s/b%d%s", par, faults, fcls, blocked, tag)
 }
 
 // ---------------------------------------------------------------- generators
@@ -192,22 +222,23 @@ func c13GenWids(r *Rng, kinds int, max int) []c13WidJ {
 	return ws
 }
 
-// c13GenKind draws a kind: mostly version v1 of one of `kinds` kinds, sometimes version v2 of
-// the same kind (numbered 1000+g), which is a different GVK.
+// c13GenKind draws a kind: mostly version v1 of one of `kinds` kinds, sometimes one of the kinds
+// that differ from it in one identity dimension only (another version, another API group, a Kind
+// it is a prefix of, the same Kind in another case: see c13GVK), each a different GVK.
 func c13GenKind(r *Rng, kinds int) int {
 	g := r.Intn(kinds)
-	if r.Chance(1, 8) {
-		return 1000 + g
+	if r.Chance(1, 6) {
+		return 1000*r.Range(1, c13Variants-1) + g
 	}
 	return g
 }
 
-// c13GenXRs draws the XRs the collector lists: 0-3 XRs in every state a collector could be
+// c13GenXRs draws the XRs the collector lists: 0-4 XRs in every state a collector could be
 // tempted to filter on, with 0-3 references each (duplicates, malformed ones, several versions
-// of one kind).
+// of one kind, kinds related by group / prefix / case).
 func c13GenXRs(r *Rng, kinds int) []c13XR {
 	xrs := []c13XR{}
-	for i, n := 0, r.Intn(4); i < n; i++ {
+	for i, n := 0, r.Intn(5); i < n; i++ {
 		x := c13XR{Del: r.Chance(1, 3), Paused: r.Chance(1, 5), NoComp: r.Chance(1, 5), NotReady: r.Chance(1, 4), Unsynced: r.Chance(1, 5), Refs: []c13Ref{}}
 		for j, m := 0, r.Intn(4); j < m; j++ {
 			ref := c13Ref{G: c13GenKind(r, kinds)}
@@ -224,6 +255,17 @@ func c13GenXRs(r *Rng, kinds int) []c13XR {
 	return xrs
 }
 
+// c13GenGC draws one collector call: the XRs of the controller's own composite kind and,
+// mostly, XRs of other composite kinds (with other references) that only a List for another
+// group, version or kind would return.
+func c13GenGC(r *Rng, n, kinds int) c13Op {
+	op := c13Op{Op: "gc", N: n, Xrs: c13GenXRs(r, kinds)}
+	if r.Chance(2, 3) {
+		op.Oxrs = c13GenXRs(r, kinds)
+	}
+	return op
+}
+
 func c13GenOp(r *Rng, names, kinds int) c13Op {
 	n := r.Intn(names)
 	switch r.Intn(16) {
@@ -234,20 +276,54 @@ func c13GenOp(r *Rng, names, kinds int) c13Op {
 	case 4:
 		return c13Op{Op: "isRunning", N: n}
 	case 5, 6, 7, 8:
-		return c13Op{Op: "startWatches", N: n, Ws: c13GenWids(r, kinds, 3)}
+		max := 3
+		if r.Chance(1, 5) {
+			max = 5
+		}
+		return c13Op{Op: "startWatches", N: n, Ws: c13GenWids(r, kinds, max)}
 	case 9, 10:
-		return c13Op{Op: "stopWatches", N: n, Ws: c13GenWids(r, kinds, 2)}
+		return c13Op{Op: "stopWatches", N: n, Ws: c13GenWids(r, kinds, 3)}
 	case 11:
 		return c13Op{Op: "getWatches", N: n}
 	case 12, 13:
-		return c13Op{Op: "gc", N: n, Xrs: c13GenXRs(r, kinds)}
+		return c13GenGC(r, n, kinds)
 	default:
-		return c13Op{Op: "removeInformer", G: r.Intn(kinds)}
+		return c13Op{Op: "removeInformer", G: c13GenKind(r, kinds)}
+	}
+}
+
+// c13GenGCStory appends what one controller's collector sees over time: the controller watches
+// some composed kinds; the (one, long-lived) collector of that controller runs 2-3 times, each
+// time against another set of XRs (XRs appear, disappear, start and stop referencing kinds),
+// with watches started in between. Every call must decide from the XRs IT listed.
+func c13GenGCStory(r *Rng, n, kinds int, add func(c13Op)) {
+	composed := func() []c13WidJ {
+		ws := []c13WidJ{}
+		for i, k := 0, r.Range(1, 3); i < k; i++ {
+			ws = append(ws, c13WidJ{T: "composed", G: c13GenKind(r, kinds)})
+		}
+		if r.Chance(1, 3) {
+			ws = append(ws, c13WidJ{T: Pick(r, []string{"xr", "rev"}), G: c13GenKind(r, kinds)})
+		}
+		return ws
+	}
+	add(c13Op{Op: "startWatches", N: n, Ws: composed()})
+	for i, k := 0, r.Range(2, 3); i < k; i++ {
+		add(c13GenGC(r, n, kinds))
+		if r.Chance(1, 2) {
+			add(c13Op{Op: "startWatches", N: n, Ws: composed()})
+		}
+	}
+	if r.Chance(1, 2) {
+		add(c13Op{Op: "getWatches", N: n})
 	}
 }
 
 func c13GenRandom(r *Rng) c13Scn {
 	names := r.Range(1, 2)
+	if r.Chance(1, 6) {
+		names = 3
+	}
 	kinds := r.Range(1, 3)
 	s := c13Scn{Names: names}
 	phase := 0
@@ -255,22 +331,28 @@ func c13GenRandom(r *Rng) c13Scn {
 		op.Phase = phase
 		s.Threads = append(s.Threads, op)
 	}
+	seq := func(op c13Op) {
+		add(op)
+		phase++
+	}
 	// sequential prefix
 	for n := 0; n < names; n++ {
 		if r.Chance(4, 5) {
-			add(c13Op{Op: "start", N: n})
-			phase++
+			seq(c13Op{Op: "start", N: n})
 			if r.Chance(2, 3) {
-				add(c13Op{Op: "startWatches", N: n, Ws: c13GenWids(r, kinds, 3)})
-				phase++
+				seq(c13Op{Op: "startWatches", N: n, Ws: c13GenWids(r, kinds, 3)})
 			}
 		}
 	}
 	if r.Chance(1, 4) {
-		add(c13Op{Op: "removeInformer", G: r.Intn(kinds)})
-		phase++
+		seq(c13Op{Op: "removeInformer", G: c13GenKind(r, kinds)})
 	}
-	// one or two concurrent phases
+	story := r.Chance(1, 4)
+	if story && r.Chance(1, 2) {
+		c13GenGCStory(r, r.Intn(names), kinds, seq)
+		story = false
+	}
+	// one or two concurrent phases (after a collector story mostly a short one)
 	for k, np := 0, r.Range(1, 2); k < np; k++ {
 		for i, n := 0, r.Range(2, 4); i < n; i++ {
 			add(c13GenOp(r, names, kinds))
@@ -278,14 +360,16 @@ func c13GenRandom(r *Rng) c13Scn {
 		phase++
 	}
 	// sequential suffix
-	for i, n := 0, r.Range(0, 4); i < n; i++ {
-		add(c13GenOp(r, names, kinds))
-		phase++
+	if story {
+		c13GenGCStory(r, r.Intn(names), kinds, seq)
 	}
-	for i := 0; i < 80; i++ {
+	for i, n := 0, r.Range(0, 4); i < n; i++ {
+		seq(c13GenOp(r, names, kinds))
+	}
+	for i := 0; i < 120; i++ {
 		v := r.Intn(8)
 		if r.Chance(1, 25) {
-			v += 1000
+			v += 1000 * r.Range(1, len(c13ErrClasses)) // the call fails, with an error of that class
 		}
 		s.Script = append(s.Script, v)
 	}
